@@ -106,7 +106,7 @@ fn pick_distinct(rng: &mut SplitMix64, k: usize, n: usize) -> Vec<usize>
 fn cond_case(out: &mut Out, rng: &mut SplitMix64, skipped: &mut usize, zero_shots: bool)
 {
     let vector = rng.coin();
-    let nq = 1 + rng.below(4) as usize;
+    let nq = 1 + rng.below(5) as usize;
     let nc = match rng.below(4) { 0 => 64, 1 => nq + 1 + rng.below(6) as usize, _ => nq + 2 + rng.below(20) as usize };
     let shots = if zero_shots { 0 } else { 1 + rng.below(if thorough() { 24 } else { 12 }) as usize };
     let mut ops = vec![];
@@ -132,6 +132,13 @@ fn cond_case(out: &mut Out, rng: &mut SplitMix64, skipped: &mut usize, zero_shot
         }
     }
     else { ops.push(Op::Gate("Z", vec![0])); }
+    // now and then: merge all shots back into ONE range (reset_all) although their register words differ, so that the
+    // selection mask alternates inside a single state (t,f,t / f,t,f,t ...), then put the qubits into basis states again
+    if !zero_shots && rng.below(3) == 0
+    {
+        ops.push(Op::ResetAll);
+        for q in 0..nq { if rng.coin() { ops.push(Op::Gate("X", vec![q])); } }
+    }
     let p = ops.len();
     // run the preparation alone to learn the registers (only to choose an interesting target)
     let seed = rng.next();
@@ -148,7 +155,8 @@ fn cond_case(out: &mut Out, rng: &mut SplitMix64, skipped: &mut usize, zero_shot
     // now and then a target the selected bits cannot spell (a bit at position >= control.len()): it must match NO shot,
     // however its low bits read
     if k < 60 && rng.below(8) == 0 { target |= 1u64 << (k as u32 + rng.below(3) as u32); }
-    let (g, arity) = match rng.below(10) { 0 | 1 | 2 | 3 => ("X", 1), 4 => ("Y", 1), 5 => ("Z", 1), 6 | 7 => ("CX", 2), 8 => ("Swap", 2), _ => ("CCX", 3) };
+    let (g, arity) = match rng.below(12) { 0 | 1 | 2 | 3 => ("X", 1), 4 => ("Y", 1), 5 => ("Z", 1), 6 | 7 => ("CX", 2), 8 => ("Swap", 2), 9 => ("CCX", 3),
+        10 => ("KronXCX", 3), _ => ("KronCXX", 3) };   // tensor products of factors of different width
     let (g, arity) = if arity > nq || (g == "CCX" && !vector) { ("X", 1) } else { (g, arity) };
     let bits = pick_distinct(rng, arity, nq);
     ops.push(Op::Cond(control.clone(), target, g, bits.clone()));
